@@ -161,7 +161,12 @@ func VerifC07() {
 		specs = append(specs, s)
 		descs = append(descs, d)
 	}
-	nid := 1 + vfChoice("nid", 2+vfTier())
+	// quick tier: with two source specs only one identifier and no override (the full product is thorough)
+	small := vfTier() == 0 && nspec == 2
+	nid := 1
+	if !small {
+		nid = 1 + vfChoice("nid", 2+vfTier())
+	}
 	var idents []*dst.Ident
 	for i := 0; i < nid; i++ {
 		idents = append(idents, vfIdentWithPath("id"+strconv.Itoa(i)))
@@ -172,7 +177,8 @@ func VerifC07() {
 	res := NewRestorerWithImports(vfLocal, vfResolver{names: names, failAt: -1, calls: &calls})
 	fr := res.FileRestorer()
 	overridePath, override := "", ""
-	if k := vfChoice("override", len(vfPool)+1); k < len(vfPool) {
+	if small {
+	} else if k := vfChoice("override", len(vfPool)+1); k < len(vfPool) {
 		overridePath = vfPool[k]
 		override = vfBytes("overrideAlias", 1, "pqs")
 		fr.Alias[overridePath] = override
@@ -435,6 +441,88 @@ func VerifC17Restore() {
 	c2 := 0
 	r2 := NewRestorerWithImports(vfLocal, vfResolver{names: names, failAt: -1, calls: &c2})
 	again, err2 := r2.RestoreFile(file)
+	vfAssert(err2 == nil, "retry-ok")
+	if err2 == nil {
+		vfAssert(vfDeepEqual(again, want), "retry-equals-failure-free-run")
+	}
+}
+
+// ---- C17: identifier-resolver failure during decoration ---------------------------------------------
+
+type vfIdentResolver struct {
+	failAt int
+	calls  *int
+	err    error
+}
+
+func (v vfIdentResolver) ResolveIdent(file *ast.File, parent ast.Node, parentField string, id *ast.Ident) (string, error) {
+	k := *v.calls
+	*v.calls = k + 1
+	if k == v.failAt {
+		return "", v.err
+	}
+	if se, ok := parent.(*ast.SelectorExpr); ok && parentField == "Sel" {
+		if x, ok := se.X.(*ast.Ident); ok && x.Name == "a" {
+			return "x.y/a", nil
+		}
+	}
+	return "", nil
+}
+
+// vfSelectorFile builds (by restoring a small dst file) a positioned ast file with 1-3 qualified
+// selectors a.N and one plain identifier, registered in a fresh FileSet.
+func vfSelectorFile(n int) (*ast.File, *token.FileSet) {
+	var vals []dst.Expr
+	var names []*dst.Ident
+	for i := 0; i < n; i++ {
+		vals = append(vals, &dst.SelectorExpr{X: &dst.Ident{Name: "a"}, Sel: &dst.Ident{Name: "N" + strconv.Itoa(i)}})
+		names = append(names, &dst.Ident{Name: "_"})
+	}
+	vals = append(vals, &dst.Ident{Name: "local"})
+	names = append(names, &dst.Ident{Name: "_"})
+	f := &dst.File{Name: &dst.Ident{Name: "pkg"}, Decls: []dst.Decl{
+		&dst.GenDecl{Tok: token.IMPORT, Specs: []dst.Spec{&dst.ImportSpec{Path: &dst.BasicLit{Kind: token.STRING, Value: "\"x.y/a\""}}}},
+		&dst.GenDecl{Tok: token.VAR, Specs: []dst.Spec{&dst.ValueSpec{Names: names, Values: vals}}},
+	}}
+	r := NewRestorer()
+	af, _ := r.RestoreFile(f)
+	return af, r.Fset
+}
+
+// VerifC17Decorate: the identifier resolver fails at its k-th call: DecorateFile returns an error
+// wrapping it, no tree, no panic, the input ast is unmodified, and a fresh decorator with a working
+// resolver gives the same dst tree as a failure-free run.
+func VerifC17Decorate() {
+	n := 1 + vfChoice("nsel", 2+vfTier())
+	af, fset := vfSelectorFile(n)
+	af2, fset2 := vfSelectorFile(n) // identical twin used as the snapshot / reference input
+
+	c0 := 0
+	d0 := NewDecoratorWithImports(fset2, vfLocal, vfIdentResolver{failAt: -1, calls: &c0})
+	want, err0 := d0.DecorateFile(af2)
+	vfAssert(err0 == nil, "reference-run-ok")
+	if c0 == 0 {
+		return
+	}
+	injected := errors.New("injected")
+	k := vfChoice("failAt", c0)
+	c1 := 0
+	d1 := NewDecoratorWithImports(fset, vfLocal, vfIdentResolver{failAt: k, calls: &c1, err: injected})
+	var got *dst.File
+	var err error
+	panicked := vfExpectPanic(func() { got, err = d1.DecorateFile(af) })
+	vfReach("failed-run")
+	vfAssert(!panicked, "failure-does-not-panic")
+	vfAssert(err != nil, "failure-returns-error")
+	vfAssert(got == nil, "failure-returns-no-tree")
+	if err != nil {
+		vfAssert(errors.Is(err, injected), "error-wraps-injected")
+	}
+	vfAssert(vfDeepEqual(af, af2), "input-ast-unmodified")
+
+	c2 := 0
+	d2 := NewDecoratorWithImports(fset, vfLocal, vfIdentResolver{failAt: -1, calls: &c2})
+	again, err2 := d2.DecorateFile(af)
 	vfAssert(err2 == nil, "retry-ok")
 	if err2 == nil {
 		vfAssert(vfDeepEqual(again, want), "retry-equals-failure-free-run")
